@@ -247,6 +247,10 @@ func buildC03(cfg *mon.Config) []*mon.Sub {
 			g := &tmplGen{r: r}
 			for i := 0; i < cfg.N(10000, 800000); i++ {
 				src := model.PrintTemplate(g.nodes(1+r.Intn(3), 1+r.Intn(8)))
+				if r.Chance(1, 20) { // deep nesting
+					n := 10 + r.Intn(60)
+					src = strings.Repeat("{{#a}}x", n) + "y" + strings.Repeat("{{/a}}", n-r.Intn(2))
+				}
 				src = mutateChars(r, src, r.Intn(5))
 				emit("tmpl\x00" + strconv.Itoa(r.Intn(100000)) + "\x00" + src)
 			}
